@@ -844,6 +844,18 @@ func (p *parser) validateFunctionAlias(aliasTokens []token.Token, params []ast.P
 		return &err
 	}
 
+	// validate that the alias can be recognized by something: an alias of nothing but parameters would match every expression, itself included
+	if countElements(aliasTokens, func(t token.Token) bool { return !isAliasParam(t) && t.Type != token.EOF }) == 0 {
+		err := ddperror.New(
+			ddperror.SEM_MALFORMED_ALIAS,
+			ddperror.LEVEL_ERROR,
+			token.NewRange(&aliasTokens[len(aliasTokens)-1], &aliasTokens[len(aliasTokens)-1]),
+			"Ein Alias muss mindestens ein Wort oder Symbol enthalten, das kein Parameter ist",
+			p.module.FileName,
+		)
+		return &err
+	}
+
 	nameTypeMap := make(map[string]ddptypes.ParameterType, len(params)) // map that holds the parameter names contained in the alias and their corresponding type
 	nameSet := make(map[string]struct{}, len(params))                   // set that holds the parameter names contained in the alias
 	for _, param := range params {
@@ -906,6 +918,18 @@ func (p *parser) validateStructAlias(aliasTokens []token.Token, fields []*ast.Va
 			ddperror.LEVEL_ERROR,
 			token.NewRange(&aliasTokens[len(aliasTokens)-1], &aliasTokens[len(aliasTokens)-1]),
 			"Der Alias enthält ungültige Symbole",
+			p.module.FileName,
+		)
+		return &err, nil
+	}
+
+	// validate that the alias can be recognized by something: an alias of nothing but parameters would match every expression, itself included
+	if countElements(aliasTokens, func(t token.Token) bool { return !isAliasParam(t) && t.Type != token.EOF }) == 0 {
+		err := ddperror.New(
+			ddperror.SEM_MALFORMED_ALIAS,
+			ddperror.LEVEL_ERROR,
+			token.NewRange(&aliasTokens[len(aliasTokens)-1], &aliasTokens[len(aliasTokens)-1]),
+			"Ein Alias muss mindestens ein Wort oder Symbol enthalten, das kein Parameter ist",
 			p.module.FileName,
 		)
 		return &err, nil
